@@ -265,6 +265,13 @@ TARGETS = [
     dict(name="key_macro_default", file="src/key.rs", fn="default", kind="function", ret=("arr", "u8"), tape=True,
          subst={"$size": "KEY_SIZE", "$name": "KeyName"}, consts={"KEY_SIZE": ("key_size", "usize")}, extra_params=["key_size : N"],
          identity=["Self::from_le_bytes"]),
+    dict(name="reconnect_randomize_data", file="src/key.rs", fn="randomize_data", kind="api", fields=["key"], mutates=True, tape=True, unit=True),
+    dict(name="key_macro_randomized", file="src/key.rs", fn="randomized", kind="function", ret=("arr", "u8"), tape=True,
+         subst={"$size": "KEY_SIZE", "$name": "KeyName"}, extra_params=["key_size : N"], tape_calls={"Self::default": ("tr_key_macro_default key_size", ("arr", "u8"))}),
+    dict(name="key_macro_from_le_bytes", file="src/key.rs", fn="from_le_bytes", nth=0, kind="function", ret=("arr", "u8"), structs={"Self": ["key"]},
+         subst={"$size": "KEY_SIZE", "$name": "KeyName"}),
+    dict(name="key_macro_as_le_bytes", file="src/key.rs", fn="as_le_bytes", kind="method", fields=[("key", ("arr", "u8"))], helpers=[], readonly=True, ret=("arr", "u8"),
+         subst={"$size": "KEY_SIZE", "$name": "KeyName"}),
     dict(name="key_macro_from_bigint", file="src/key.rs", fn="from", kind="formula", big_params=["b"], structs={"Self": ["key"]},
          subst={"$size": "KEY_SIZE", "$name": "KeyName"}, consts={"KEY_SIZE": ("key_size", "usize")}, extra_params=["(key_size : N)"]),
     dict(name="normalized_string_new", file="src/normalized_string.rs", fn="inner", kind="function", ret="nstr_view + ns_error",
@@ -671,8 +678,8 @@ def api(t, src):
     fields = ["s_" + f for f in t["fields"]]
     g.self_tuple = " ".join(fields) if fields else None
     def final(tail):
-        if tail is None: raise Untranslatable("method without a result")
-        parts = [tail[0]]
+        if tail is None and not (t.get("unit") and t.get("mutates")): raise Untranslatable("method without a result")
+        parts = [tail[0]] if tail is not None else []
         if t.get("mutates"): parts.append("(" + ", ".join(fields) + ")" if len(fields) > 1 else fields[0])
         if t.get("tape"): parts.append("v_tape")
         return "Some (%s)" % ", ".join(parts) if len(parts) > 1 else "Some %s" % parts[0]
